@@ -86,6 +86,10 @@ func c10Gen(r *gen.R) *c10Cfg {
 		switch r.Intn(5) {
 		case 0:
 			ru.Reject = r.Range(1, 15)
+			if r.P(0.3) {
+				// a block rule made from a copy of a forward rule: with both keys it is a reject rule
+				ru.Forward = gen.Pick(r, cfg.Ups)
+			}
 		case 1: // no action
 		default:
 			ru.Forward = gen.Pick(r, cfg.Ups)
@@ -276,7 +280,19 @@ func c10Good(c *Ctx, idx int) {
 		if strings.HasPrefix(name, "fixed.") { // keep names unique in the upstream logs: use the type as discriminator
 			name = "fixed." + suf + "."
 		}
-		name = c03RandCase(r, name)
+		// spelling: mostly random mixed case; also all upper case, and a single upper-case letter at the
+		// very start / the very end of the name
+		switch r.Intn(10) {
+		case 0:
+			name = strings.ToUpper(name)
+		case 1:
+			name = strings.ToUpper(name[:1]) + name[1:]
+		case 2, 3:
+			name = name[:len(name)-2] + strings.ToUpper(name[len(name)-2:])
+		case 4:
+		default:
+			name = c03RandCase(r, name)
+		}
 		pr := &probe{name: name, qtype: gen.Pick(r, []uint16{dns.TypeA, dns.TypeAAAA, dns.TypeTXT, dns.TypeMX, 65}), class: dns.ClassINET, viaTCP: r.P(0.3)}
 		if r.P(0.1) {
 			pr.class = dns.ClassCHAOS
